@@ -1,6 +1,6 @@
 HOOK_COMMITS = ["bc7826eeb31079b932557c6566a10da9b9acc9ce"]
 _PENDING = "check not built yet in this round (planned, see DESIGN.md section 9); not a statement that the technique cannot apply"
-NOT_APPLICABLE = {p: _PENDING for p in ["C05","C06","C07","C08","C09","C10","C11","C12","C16"]}
+NOT_APPLICABLE = {p: _PENDING for p in ["C05","C07","C08","C09","C10","C11","C12","C16"]}
 TEXT = {
  "C17": {
   "text": "Lean mirror of integer.h / dyadic_rational.h / rational.h; theorems for every modulus m>=2 and every operand state that each "
@@ -98,6 +98,20 @@ TEXT = {
   "design_ref": "5.19",
   "note": "clause (c) is runtime monitoring on generated inputs, not proof (no executable Lean model can exhibit out-of-bounds access); variable_db/variable_order counters are opaque and observed only via sanitizers",
   "technique": "Lean 4 invariant proof (refcount protocol) + correspondence with aliased/pre-used outputs + sanitizer monitoring",
+ },
+ "C06": {
+  "text": "lp_upolynomial_roots_isolate / roots_count / sturm_sequence are judged on every run by a verified real-root counter written in "
+          "Lean (interval Horner exclusion, sign-definite derivative => strict monotonicity, bisection; square-free part with a "
+          "multiply-back certificate; Cauchy root bound). Proved for every polynomial over Q, every interval and strictness pattern, with "
+          "no bound on degree: a count answered by the model is the length of a strictly increasing list enumerating exactly the real "
+          "roots in the interval (C06_count, C06_count_all); an isolation output accepted by the checker (valid isolating representations, "
+          "certified roots of the input, consecutive items strictly increasing by the proved exact comparison, as many items as distinct "
+          "roots) enumerates every real root exactly once in increasing order (C06_isolate_accept). The model answers `none` when its fuel "
+          "runs out (counted as skipped, 0 on the generated inputs). Sturm clause: V(a)-V(b) of the returned chain is compared with the "
+          "proved count on a grid around the roots and at +-inf; Sturm's theorem itself is not formalised (partial).",
+  "design_ref": "5.6",
+  "note": "found and fixed: closed lower end counted a root when f(a) != 0; point intervals read the unconstructed upper end",
+  "technique": "Lean 4 proved root counter / algebraic-number comparison (validator) + per-output validation of the C results",
  },
  "C04": {
   "text": "Every resultant, psc sequence and subresultant chain returned by the C library (lp_polynomial_resultant / _psc / _subres, in the "
